@@ -239,6 +239,7 @@ type factsOut struct {
 	vars      []string            // pkg \t var \t type-class
 	varWrites map[string]bool     // pkg \t var \t func \t kind
 	varEsc    map[string]bool     // pkg \t var \t func
+	varRefs   map[string]bool     // pkg \t var \t func \t how   (a reference INTO the variable leaves it)
 	extWrites map[string]bool     // pkg \t target \t func \t kind    (writes to another package's variable)
 	tracked   map[string]bool     // pkg \t type \t class
 	fields    map[string][]string // pkg \t type -> field names
@@ -400,7 +401,226 @@ func isAppendSelf(p *Pkg, lhs, rhs ast.Expr) bool {
 func exprString(e ast.Expr) string { return types.ExprString(e) }
 
 // analysePkgVars: part (a) for one function body (or initialiser expression).
+// knownRef: the expression has a (resolved) pointer, slice or map type.
+func (p *Pkg) knownRef(e ast.Expr) bool {
+	tv, ok := p.Info.Types[e]
+	if !ok || tv.Type == nil {
+		return false
+	}
+	switch tv.Type.Underlying().(type) {
+	case *types.Pointer, *types.Slice, *types.Map:
+		return true
+	}
+	return false
+}
+
+// analysePkgVarRefs: references INTO a package-level variable (the value of a pointer / slice
+// / map typed expression rooted at it, or the address of part of it) that are copied into a
+// local variable, a field, a literal, or returned. Through a local copy the function's own
+// stores are followed (kind elem-via-alias in pkg_var_writes) and one further hop of the copy
+// (into a field, returned, passed on) is recorded; anything beyond that is not followed.
+func (p *Pkg) analysePkgVarRefs(fn string, node ast.Node, out *factsOut) {
+	rooted := func(e ast.Expr) (*types.Var, bool) {
+		x := e
+		if u, ok := x.(*ast.UnaryExpr); ok && u.Op == token.AND {
+			x = u.X
+			id, _ := rootIdent(x)
+			if v, ok := p.isPkgVar(id); ok {
+				return v, true
+			}
+			return nil, false
+		}
+		id, _ := rootIdent(x)
+		if v, ok := p.isPkgVar(id); ok && p.knownRef(e) {
+			return v, true
+		}
+		return nil, false
+	}
+	add := func(v *types.Var, how string) { out.varRefs[p.Dir+"\t"+v.Name()+"\t"+fn+"\t"+how] = true }
+	locals := map[types.Object][]*types.Var{} // local copy -> package variables it may refer into
+	bind := func(l ast.Expr, v *types.Var) {
+		switch y := l.(type) {
+		case *ast.Ident:
+			if y.Name == "_" {
+				return
+			}
+			o := p.Info.Defs[y]
+			if o == nil {
+				o = p.Info.Uses[y]
+			}
+			if o == nil {
+				return
+			}
+			if lv, ok := o.(*types.Var); ok && lv.Parent() == p.Types.Scope() {
+				add(v, "to-package-variable")
+				return
+			}
+			locals[o] = append(locals[o], v)
+			add(v, "to-local")
+		default:
+			add(v, "to-field")
+		}
+	}
+	ast.Inspect(node, func(n ast.Node) bool {
+		switch x := n.(type) {
+		case *ast.AssignStmt:
+			if len(x.Lhs) == len(x.Rhs) {
+				for i, r := range x.Rhs {
+					if v, ok := rooted(r); ok {
+						if u, isAddr := r.(*ast.UnaryExpr); isAddr && u.Op == token.AND {
+							_ = u // &v[..]: classified addr / addr_ro in pkg_var_writes; still follow the copy
+						}
+						bind(x.Lhs[i], v)
+					}
+				}
+			}
+		case *ast.ValueSpec:
+			for i, r := range x.Values {
+				if v, ok := rooted(r); ok && i < len(x.Names) {
+					bind(x.Names[i], v)
+				}
+			}
+		case *ast.RangeStmt:
+			if x.Tok == token.DEFINE && x.Value != nil {
+				id, _ := rootIdent(x.X)
+				if v, ok := p.isPkgVar(id); ok {
+					if vid, ok := x.Value.(*ast.Ident); ok {
+						if o := p.Info.Defs[vid]; o != nil {
+							switch o.Type().Underlying().(type) {
+							case *types.Pointer, *types.Slice, *types.Map:
+								locals[o] = append(locals[o], v)
+								add(v, "to-local")
+							}
+						}
+					}
+				}
+			}
+		case *ast.ReturnStmt:
+			for _, r := range x.Results {
+				if v, ok := rooted(r); ok {
+					add(v, "returned")
+				}
+			}
+		case *ast.CompositeLit:
+			for _, el := range x.Elts {
+				e := el
+				if kv, ok := el.(*ast.KeyValueExpr); ok {
+					e = kv.Value
+				}
+				if v, ok := rooted(e); ok {
+					add(v, "in-literal")
+				}
+			}
+		}
+		return true
+	})
+	if len(locals) == 0 {
+		return
+	}
+	// what happens to the local copies
+	addW := func(vs []*types.Var, kind string) {
+		for _, v := range vs {
+			out.varWrites[p.Dir+"\t"+v.Name()+"\t"+fn+"\t"+kind] = true
+		}
+	}
+	add2 := func(vs []*types.Var, how string) {
+		for _, v := range vs {
+			add(v, how)
+		}
+	}
+	localOf := func(e ast.Expr) ([]*types.Var, bool, bool) { // (variables, stripped, ok)
+		id, stripped := rootIdent(e)
+		if id == nil {
+			return nil, false, false
+		}
+		if v, ok := locals[p.Info.Uses[id]]; ok {
+			return v, stripped, true
+		}
+		return nil, false, false
+	}
+	ast.Inspect(node, func(n ast.Node) bool {
+		switch x := n.(type) {
+		case *ast.AssignStmt:
+			for _, l := range x.Lhs {
+				if v, stripped, ok := localOf(l); ok && stripped {
+					addW(v, "elem-via-alias")
+				}
+			}
+			if len(x.Lhs) == len(x.Rhs) {
+				for i, r := range x.Rhs {
+					if id, ok := r.(*ast.Ident); ok {
+						if v, ok := locals[p.Info.Uses[id]]; ok {
+							switch l := x.Lhs[i].(type) {
+							case *ast.Ident:
+								if o := p.Info.Uses[l]; o != nil {
+									if lv, ok := o.(*types.Var); ok && lv.Parent() == p.Types.Scope() {
+										add2(v, "via-local:to-package-variable")
+									}
+								}
+							default:
+								add2(v, "via-local:to-field")
+							}
+						}
+					}
+				}
+			}
+		case *ast.IncDecStmt:
+			if v, stripped, ok := localOf(x.X); ok && stripped {
+				addW(v, "elem-via-alias")
+			}
+		case *ast.ReturnStmt:
+			for _, r := range x.Results {
+				if id, ok := r.(*ast.Ident); ok {
+					if v, ok := locals[p.Info.Uses[id]]; ok {
+						add2(v, "via-local:returned")
+					}
+				}
+			}
+		case *ast.CompositeLit:
+			for _, el := range x.Elts {
+				e := el
+				if kv, ok := el.(*ast.KeyValueExpr); ok {
+					e = kv.Value
+				}
+				if id, ok := e.(*ast.Ident); ok {
+					if v, ok := locals[p.Info.Uses[id]]; ok {
+						add2(v, "via-local:in-literal")
+					}
+				}
+			}
+		case *ast.CallExpr:
+			if f, ok := x.Fun.(*ast.Ident); ok && len(x.Args) > 0 {
+				if _, isB := p.Info.Uses[f].(*types.Builtin); isB && (f.Name == "copy" || f.Name == "delete" || f.Name == "clear") {
+					if v, _, ok := localOf(x.Args[0]); ok {
+						addW(v, "elem-via-alias")
+					}
+					return true
+				}
+				if _, isB := p.Info.Uses[f].(*types.Builtin); isB {
+					return true
+				}
+			}
+			for _, a := range x.Args {
+				if id, ok := a.(*ast.Ident); ok {
+					if v, ok := locals[p.Info.Uses[id]]; ok {
+						add2(v, "via-local:passed")
+					}
+				}
+			}
+			if sel, ok := x.Fun.(*ast.SelectorExpr); ok {
+				if id, ok := sel.X.(*ast.Ident); ok {
+					if v, ok := locals[p.Info.Uses[id]]; ok {
+						add2(v, "via-local:method:"+sel.Sel.Name)
+					}
+				}
+			}
+		}
+		return true
+	})
+}
+
 func (p *Pkg) analysePkgVars(fn string, node ast.Node, out *factsOut) {
+	p.analysePkgVarRefs(fn, node, out)
 	addW := func(v *types.Var, kind string) {
 		out.varWrites[p.Dir+"\t"+v.Name()+"\t"+fn+"\t"+kind] = true
 	}
@@ -1315,6 +1535,13 @@ func (w *recvWalker) stmt(s ast.Stmt, d int) {
 	case *ast.ReturnStmt:
 		for _, r := range x.Results {
 			w.expr(r, d)
+			// a reference-typed (part of a) receiver field handed to the caller
+			if f, _, ok := w.rootField(r); ok {
+				tv := w.p.Info.Types[r]
+				if refLike(tv.Type) {
+					w.add("T", f, d)
+				}
+			}
 		}
 		k := "X"
 		if w.errRes && len(x.Results) > 0 {
@@ -1840,7 +2067,7 @@ func genFacts() error {
 	if err != nil {
 		return err
 	}
-	out := &factsOut{varWrites: map[string]bool{}, varEsc: map[string]bool{}, extWrites: map[string]bool{},
+	out := &factsOut{varWrites: map[string]bool{}, varEsc: map[string]bool{}, varRefs: map[string]bool{}, extWrites: map[string]bool{},
 		tracked: map[string]bool{}, fields: map[string][]string{}, initOnly: map[string]bool{}, unsafeUse: map[string]bool{}, refs: map[string]bool{}, nondet: map[string]bool{}}
 	var scanned []string
 	nfiles := 0
@@ -1927,7 +2154,7 @@ func genFacts() error {
 	writeTuples(&sb, out.vars, 3)
 	sb.WriteString("].\n\n")
 
-	sb.WriteString("(* (package, variable, function, kind): kind = assign | compound | incdec | elem | append | addr | addr_ro | ptrrecv:<m>\n   (addr_ro: `q := &v[..]` whose q is only ever dereferenced for loads) *)\n")
+	sb.WriteString("(* (package, variable, function, kind): kind = assign | compound | incdec | elem | elem-via-alias | append | addr | addr_ro | ptrrecv:<m>\n   (addr_ro: `q := &v[..]` whose q is only ever dereferenced for loads) *)\n")
 	sb.WriteString("Definition pkg_var_writes : list (string * string * string * string) := [\n")
 	writeTuples(&sb, sortedKeys(out.varWrites), 4)
 	sb.WriteString("].\n\n")
@@ -1935,6 +2162,13 @@ func genFacts() error {
 	sb.WriteString("(* (package, variable, function): reference-typed variable passed to a call (contents may be written by the callee) *)\n")
 	sb.WriteString("Definition pkg_var_escapes : list (string * string * string) := [\n")
 	writeTuples(&sb, sortedKeys(out.varEsc), 3)
+	sb.WriteString("].\n\n")
+
+	sb.WriteString("(* (package, variable, function, how): a reference into the variable (pointer / slice / map value read from\n")
+	sb.WriteString("   it, or the address of part of it) is copied: to-local | to-field | to-package-variable | returned | in-literal,\n")
+	sb.WriteString("   and for a local copy one more hop: via-local:to-field | :returned | :passed | :in-literal | :method:<m> *)\n")
+	sb.WriteString("Definition pkg_var_refs : list (string * string * string * string) := [\n")
+	writeTuples(&sb, sortedKeys(out.varRefs), 4)
 	sb.WriteString("].\n\n")
 
 	sb.WriteString("(* (package, imported variable, function, kind): writes to a variable of ANOTHER package *)\n")
@@ -2069,6 +2303,7 @@ func genFacts() error {
 	sb.WriteString("     F T.f / FS T.f / FP T.f#i   field f of such an object stored directly (same three cases)\n")
 	sb.WriteString("     P g#i / PS g#i / PP g#i#j   such an object passed as argument i of g (PP: it is our parameter j)\n")
 	sb.WriteString("     I iface.m   method m called on a parameter declared as codec . Parameters (the caller's object, via the interface)\n")
+	sb.WriteString("     T f   reference-typed (part of) field f returned to the caller\n")
 	sb.WriteString("     X     return (no error; also falling off the end)   E   return with a non-nil error expression\n")
 	sb.WriteString("     B     a conditionally executed region (branch, loop body, case, closure, right operand of && ||) starts at this depth\n")
 	sb.WriteString("     S     the receiver itself escapes (returned, stored or passed on) *)\n")
